@@ -72,6 +72,8 @@ type Chan struct {
 	// rendezvous support for unbuffered channels
 	recvWaiting int
 	sent, recvd int
+	BufVC       []vclock // release clocks of the buffered items (race detection)
+	CloseVC     vclock
 }
 
 type timerObj struct {
